@@ -239,6 +239,7 @@ def mask_ili(o):
     for d in o['synsets'].values():
         if isinstance(d, dict) and d.get('ili') and d['ili'][0] is not None:
             d['ili'] = [d['ili'][0]]
+            d.pop('ili_inv_meta', None)
     o['ilis'] = sorted({i[0] for i in o['ilis'] if i and i[0] is not None}) + [i for i in o['ilis'] if i and i[0] is None]
     return o
 
